@@ -222,6 +222,8 @@ func replay(t *testing.T, spec *CheckSpec, tier, path string) int {
 		key := ""
 		if x.Violation != "" {
 			key = strings.SplitN(x.Violation, "\x00", 2)[0]
+		} else if x.CapHit && sc.CapKey != nil {
+			key = sc.CapKey(x)
 		} else {
 			if x.Deadlock {
 				obs = "DEADLOCK " + obs
